@@ -278,7 +278,7 @@ def snap_value(v) -> Any:
     if isinstance(v, int):
         return ('int', v)
     if isinstance(v, float):
-        return ('float', v)
+        return ('float', repr(v))          # repr: -0.0 and 0.0 are different values, nan compares by text
     if v is None:
         return ('none',)
     if isinstance(v, str):
